@@ -27,6 +27,9 @@ TECHNIQUE = 'bounded-exhaustive requested names x generated directory layouts on
 SLOT_STATES = ['absent', 'file', 'link-out', 'link-in', 'dir']
 COMPONENTS = ['x', 'x.tex', 'sub', 'g', 'g.tex', 'lnkdir', 'up', '..', '.', 'in2', 'out', 'secret', 's']
 BOUNDS = {'quick': dict(depth=2, depth_small=3), 'thorough': dict(depth=3, depth_small=3)}
+# symlinked directory followed by '..': the file system resolves the link first (lexical collapsing gives another path)
+EXTRA_NAMES = ['lnkdir/../in/x', 'lnkdir/../in/sub/g', 'lnkdir/../in2/s', 'lnkdir/../out/secret', 'sub/up/x', 'sub/up/sub/g',
+               'sub/up/../out/secret', 'sub/up/../in/x', 'lnkdir/back', 'sub/up/lnkdir/../in/sub/g']
 SMALL = ['x', 'sub', 'lnkdir', 'up', '..', 'in2', 'out', 'secret', 'g', 's']
 
 
@@ -148,15 +151,16 @@ def run_layout(slots, tier, acc):
     try:
         owners = build_layout(root, slots)
         nm = names(b['depth'], COMPONENTS) + [n for n in names(b['depth_small'], SMALL) if n.count('/') == b['depth_small'] - 1 and b['depth_small'] > b['depth']]
+        nm += EXTRA_NAMES
         for bi, base in enumerate([os.path.join(root, 'in'), os.path.join(root, 'in') + '/', os.path.join(root, 'inlink'),
-                                   os.path.join(root, 'out', '..', 'in')]):
+                                   os.path.join(root, 'out', '..', 'in'), os.path.join(root, 'in', 'lnkdir', '..', 'in')]):
             l2t = LatexNodes2Text()
             l2t.set_tex_input_directory(base)
             absn = [os.path.join(root, 'in', 'x'), os.path.join(root, 'in2', 's.tex'), os.path.join(root, 'out', 'secret.tex'),
                     os.path.join(root, 'in', '..', 'out', 'secret'), os.path.join(root, 'in', 'sub', 'g'), os.path.join(root, 'in2', 'x')]
-            for name in (nm if bi == 0 else nm[:200]) + absn:
+            for name in (nm if bi == 0 else nm[:200] + EXTRA_NAMES) + absn:
                 shown = name.replace(root, '<root>')
-                case = dict(slots=list(slots), base=['in', 'in/', 'inlink', 'out/../in'][bi], name=shown)
+                case = dict(slots=list(slots), base=['in', 'in/', 'inlink', 'out/../in', 'in/lnkdir/../in'][bi], name=shown)
                 check_name(l2t, base, name, owners, acc, case, via_l2t=(bi == 0))
         # one converter object re-configured from directory to directory (after at least one read under the
         # previous directory): the containment check must follow the *current* directory
@@ -170,6 +174,23 @@ def run_layout(slots, tier, acc):
                 case = dict(slots=list(slots), base='reconfigured:' + '>'.join(os.path.basename(b) for b in seq[:si + 1]),
                             name=name.replace(root, '<root>'))
                 check_name(shared, base, name, owners, acc, case, via_l2t=False)
+        # the same names first read without strict mode (same object, then another object), then in strict mode
+        base = os.path.join(root, 'in')
+        loose = LatexNodes2Text()
+        loose.set_tex_input_directory(base, strict_input=False)
+        other = LatexNodes2Text()
+        other.set_tex_input_directory(base)
+        seqn = ['x', 'sub/g', '../out/secret', '../out/x', 'lnkdir/secret', 'lnkdir/x', '../in2/s', os.path.join(root, 'out', 'secret.tex')]
+        for name in seqn:
+            acc.count('evaluations')
+            st, res = run_guarded(loose.read_input_file, name)
+            if st != 'ok':
+                acc.violation(ID, 'fs', dict(slots=list(slots), base='non-strict', name=name.replace(root, '<root>')),
+                              dict(kind='read_input_file-raises', exc=type(res).__name__ if st == 'exc' else None))
+        loose.set_tex_input_directory(base, strict_input=True)
+        for obj, tag in ((loose, 'strict-after-non-strict:same-object'), (other, 'strict-after-non-strict:other-object')):
+            for name in seqn:
+                check_name(obj, base, name, owners, acc, dict(slots=list(slots), base=tag, name=name.replace(root, '<root>')), via_l2t=False)
         # no directory configured: no file access at all
         l2t0 = LatexNodes2Text()
         for name in [os.path.join(root, 'in', 'sub', 'g.tex'), os.path.join(root, 'out', 'secret.tex')]:
@@ -188,8 +209,8 @@ def plan(tier):
         shards=shards, bounds=dict(b, slot_states=SLOT_STATES, components=COMPONENTS, layouts=len(shards)),
         rule=('125 layouts (5 states for each of in/x, in/x.tex, in/x.latex) x fixtures (in/sub/g.tex, sibling in2/, outside out/, directory symlinks '
               'in/lnkdir -> ../out and in/sub/up -> .., file symlink out/back -> inside, base also reached through a symlink and with trailing slash / '
-              'dot-dot spelling) x every name of <= %d components over 13 components, 6 absolute spellings; read_input_file and (for the plain base) '
-              'latex_to_text of \\input/\\include.  non-trivial = calls that returned file content.' % b['depth']),
+              'dot-dot spelling, also dot-dot after a symlinked directory) x 10 names that pass through a symlinked directory and then dot-dot x every name of <= %d components over 13 components, 6 absolute spellings; read_input_file and (for the plain base) '
+              'latex_to_text of \\input/\\include; a converter re-configured between directories; 8 names read without strict mode and then in strict mode (same and other object).  non-trivial = calls that returned file content.' % b['depth']),
         assumptions=['os.path.realpath of the marker owner decides containment; files are identified by unique content markers'],
     )
 
